@@ -27,7 +27,7 @@ CS0(proto) ==
    acs |-> <<>>, zones |-> <<>>, version |-> <<>>,
    cmds |-> <<>>,                      \* pending public commands
    refresh |-> <<>>, errreq |-> {},    \* explained internal frames that are due
-   stale |-> <<>>,                     \* refresh requests of an earlier connection that the socket may still hold
+   nstall |-> 0, stale |-> <<>>,                     \* refresh requests of an earlier connection that the socket may still hold
    hbDl |-> 0, hbPrev |-> -1, beatDl |-> 0, beaten |-> FALSE, pollDl |-> 0, pollPrev |-> -1, polled |-> FALSE, causes |-> 0,
    subs |-> <<>>,                      \* active subscriptions [who, target, kind]
    must |-> {}, mustnot |-> {}, seen |-> <<>>, obl |-> FALSE,
@@ -286,7 +286,7 @@ PollDue(cs) == cs.proto = "at4" /\ cs.phase = "ready" /\ (cs.now = cs.pollDl \/ 
 
 \* a command whose frame content is undetermined (exp.any) explains a frame only while the call is in
 \* progress; a determined command also explains a later frame (queued while the link was down)
-CmdIdx(cs, alts) == {i \in 1..Len(cs.cmds) : cs.cmds[i].sent = 0 /\ ~Eq(cs.cmds[i].exp.reject, TRUE)
+CmdIdx(cs, alts) == {i \in 1..Len(cs.cmds) : cs.cmds[i].sent \in {0, 2} /\ ~Eq(cs.cmds[i].exp.reject, TRUE)
                                              /\ (~cs.cmds[i].done \/ ~Eq(cs.cmds[i].exp.any, TRUE))
                                              /\ \E a \in 1..Len(alts) : CmdMatches(cs.cmds[i].exp, alts[a])}
 
@@ -310,7 +310,7 @@ TxFrame(cs, ev) ==
      ELSE IF cs.refresh # <<>> /\ cs.phase = "ready" /\ kind \in {"acstatus", "zonestatus"}
           THEN CV([cs EXCEPT !.refresh = SelectSeq(@, LAMBDA x : x # kind)], "RefreshOrder")
      ELSE IF kind = "errreq" /\ s.ac_number \in cs.errreq THEN [cs EXCEPT !.errreq = @ \ {s.ac_number}]
-     ELSE IF ci # {} THEN [cs EXCEPT !.cmds[Min(ci)].sent = 1]
+     ELSE IF ci # {} THEN [cs EXCEPT !.cmds[Min(ci)].sent = 1, !.cmds[Min(ci)].ss = cs.nstall > 0]
      ELSE IF kind = "version" /\ cs.phase = "ready"
           THEN IF HeartbeatDue(cs) THEN [cs EXCEPT !.beaten = TRUE]
                ELSE CV(cs, "HeartbeatOffSchedule")
@@ -350,7 +350,7 @@ CallApi(cs, ev) ==
              ex == IF cs.phase # "ready" \/ (ev.tk = "ac" /\ ai = {}) \/ (ev.tk = "zone" /\ zi = {})
                    THEN [reject |-> "ANY", msgs |-> <<>>, nonidem |-> FALSE, any |-> TRUE]
                    ELSE Expect(cs.proto, ev, a, z)
-         IN [cs EXCEPT !.cmds = Append(@, [id |-> ev.id, exp |-> ex, sent |-> 0, done |-> FALSE])]
+         IN [cs EXCEPT !.cmds = Append(@, [id |-> ev.id, exp |-> ex, sent |-> 0, done |-> FALSE, ss |-> FALSE])]
     [] OTHER -> cs
 
 RetApi(cs, ev) ==
@@ -460,6 +460,14 @@ CStep(cs0, ev) ==
        [] k = "cclose"    -> ClientClose(cs)
        [] k \in {"lost", "peereof", "rxdefect", "fault"} -> [cs EXCEPT !.causes = @ + 1, !.steady = FALSE,
                                                                     !.up = IF k \in {"lost"} THEN FALSE ELSE @]
+       \* a stalled connection (full send buffer) that ends takes the buffered frames with it: a command
+       \* handed over during the stall MAY be sent again (sent = 2), it is not owed again
+       [] k = "stall"     -> [cs EXCEPT !.nstall = @ + 1]
+       [] k = "unstall"   -> [cs EXCEPT !.nstall = IF @ > 0 THEN @ - 1 ELSE 0,
+                                        !.cmds = [i \in 1..Len(cs.cmds) |->
+                                                    IF cs.cmds[i].ss
+                                                    THEN [cs.cmds[i] EXCEPT !.ss = FALSE, !.sent = IF ev.ended /\ @ = 1 THEN 2 ELSE @]
+                                                    ELSE cs.cmds[i]]]
        [] k = "cb"        -> Callback(cs, ev)
        [] k = "subapi"    -> [Settle(cs) EXCEPT !.subs = IF \E i \in 1..Len(@) : @[i].who = ev.who /\ @[i].target = ev.target /\ @[i].kind = ev.kind
                                                            THEN @ ELSE Append(@, [who |-> ev.who, target |-> ev.target, kind |-> ev.kind])]
